@@ -118,7 +118,9 @@ func (r Resources) FindMatch(resource string) bool {
 // Match checks if the input string matches the given pattern with wildcards (`*`, `?`).
 // - `?` matches exactly one occurrence of any character.
 // - `*` matches arbitrary many (including zero) occurrences of any character.
-func (r Resources) Match(pattern, input string) bool {
+func (r Resources) Match(patternStr, inputStr string) bool {
+	// '?' stands for one character, not for one byte of its encoding
+	pattern, input := []rune(patternStr), []rune(inputStr)
 	pIdx, sIdx := 0, 0
 	starIdx, matchIdx := -1, 0
 
